@@ -415,3 +415,73 @@ pub fn core2(rest: &str) -> String {
         Err(e) => format!("code=[{}] consts=[{}] rterr {}", code, consts.join("|"), e.line),
     }
 }
+
+/// the name-related instructions of one instruction stream, in byte order, one token each:
+/// `GetGlobal:i SetGlobal:i DefineGlobal:i GetLocal:i SetLocal:i DefineLocal:i GetFree=i SetFree=i CurrClosure
+/// GetBuiltinFn:i GetBuiltinVar:i Closure:<free count>:c=<constant index>`
+fn name_instrs(ins: &Instructions) -> String {
+    let code = &ins.code;
+    let mut out: Vec<String> = Vec::new();
+    let mut ip = 0;
+    while ip < code.len() {
+        let op = crate::code::opcode::Opcode::from(code[ip]);
+        let Ok(def) = crate::code::definitions::lookup(code[ip]) else {
+            out.push(format!("Invalid:{}", code[ip]));
+            break;
+        };
+        let widths: usize = crate::code::definitions::operand_widths(op).iter().sum();
+        if ip + 1 + widths > code.len() {
+            out.push("Truncated".to_string());
+            break;
+        }
+        let (operands, n) = crate::code::definitions::read_operands(def, &code[ip + 1..]);
+        use crate::code::opcode::Opcode::*;
+        match op {
+            GetGlobal | SetGlobal | DefineGlobal | GetLocal | SetLocal | DefineLocal | GetBuiltinFn | GetBuiltinVar => {
+                out.push(format!("{:?}:{}", op, operands[0]))
+            }
+            GetFree | SetFree => out.push(format!("{:?}={}", op, operands[0])),
+            CurrClosure => out.push("CurrClosure".to_string()),
+            Closure => out.push(format!("Closure:{}:c={}", operands[1], operands[0])),
+            _ => {}
+        }
+        ip += 1 + n;
+    }
+    out.iter().map(|s| format!("{} ", s)).collect::<Vec<String>>().join("")
+}
+
+/// `resolve <hex src> [@@ …]` (C04): what the real compiler emitted for every name of the program.
+/// Traversal: `main[ … ]` (the top-level code), then every function constant in constant-pool order as
+/// `fn[ c=<index> … ]` (a function is added to the pool when its literal has been compiled: inner functions
+/// first), then the filters in `Bytecode::filters` order as `filter[ … ]`, then the `end` filter as `end[ … ]`,
+/// then `.`; inside a section the name-related instructions in byte order (see `name_instrs`).
+/// A compile error prints `cerr <line>`, a parse error `perr`.
+pub fn resolve(rest: &str) -> String {
+    let Some(src) = src_of(rest) else { return "bad-op".into() };
+    let c = match compile_src(&src) {
+        Err(e) => {
+            let mut it = e.split(' ');
+            return match (it.next(), it.next()) {
+                (Some("cerr"), Some(line)) => format!("cerr {}", line),
+                _ => "perr".into(),
+            };
+        }
+        Ok(c) => c,
+    };
+    let bc = c.bytecode();
+    let mut parts = vec![format!("main[ {}]", name_instrs(&bc.instructions))];
+    for (i, o) in bc.constants.iter().enumerate() {
+        match o.as_ref() {
+            Object::Func(f) => parts.push(format!("fn[ c={} {}]", i, name_instrs(&f.instructions))),
+            Object::Clos(cl) => parts.push(format!("fn[ c={} {}]", i, name_instrs(&cl.func.instructions))),
+            _ => {}
+        }
+    }
+    for f in bc.filters.iter() {
+        parts.push(format!("filter[ {}]", name_instrs(&f.instructions)));
+    }
+    if let Some(f) = bc.filter_end.as_ref() {
+        parts.push(format!("end[ {}]", name_instrs(&f.instructions)));
+    }
+    format!("ok {} .", parts.join(" "))
+}
